@@ -55,9 +55,18 @@ func (k *check) damagePayloads() (tiny, small, medium, large cw.PayloadSpec) {
 		os.WriteFile(filepath.Join(d, "small", n), []byte(src), 0o644)
 	}
 	small = cw.PayloadSpec("src:" + filepath.Join(d, "small") + ":prog/small")
-	os.MkdirAll(filepath.Join(d, "tiny"), 0o755)
-	os.WriteFile(filepath.Join(d, "tiny", "tiny.go"), []byte(tinySource), 0o644)
-	tiny = cw.PayloadSpec("src:" + filepath.Join(d, "tiny") + ":prog/tiny")
+	// the tiny payload is parsed from the committed sentinel directory (a fixed path keeps the
+	// entry bytes, which contain Sources.Dir, identical between runs: sentinels/C20/damage.json
+	// refers to offsets in it); fall back to a scratch copy if it is missing
+	fixed := filepath.Join(c.Verif, "sentinels", "C20", "tiny-src")
+	if b, err := os.ReadFile(filepath.Join(fixed, "tiny.go")); err == nil && string(b) == tinySource {
+		tiny = cw.PayloadSpec("src:" + fixed + ":prog/tiny")
+	} else {
+		c.Inconclusive("damage-sentinel-source-missing-or-changed")
+		os.MkdirAll(filepath.Join(d, "tiny"), 0o755)
+		os.WriteFile(filepath.Join(d, "tiny", "tiny.go"), []byte(tinySource), 0o644)
+		tiny = cw.PayloadSpec("src:" + filepath.Join(d, "tiny") + ":prog/tiny")
+	}
 	if copyGoFiles(filepath.Join(goroot, "src", "container", "list"), filepath.Join(d, "medium"), 100) > 0 {
 		medium = cw.PayloadSpec("src:" + filepath.Join(d, "medium") + ":container/list")
 	}
@@ -114,13 +123,15 @@ func (k *check) damageJobs() (jobs, post []func()) {
 		{"mock-tiny", cw.DamageJob{Payload: "mock:90:1", TruncAll: true, FlipMasks: masks, Special: true, Sentinels: sentinels}, 1},
 		{"mock-1k", cw.DamageJob{Payload: "mock:1500:2", TruncAll: true, FlipMasks: masks, Random: c.N(1000, 100000)}, c.N(2, 8)},
 		{"mock-4k", cw.DamageJob{Payload: "mock:7000:3", TruncAllMax: 8192, FlipMasks: masks, FlipAllMax: 4096, Random: c.N(500, 100000)}, c.N(2, 8)},
-		{"sources-tiny", cw.DamageJob{Payload: tiny, TruncAll: true, FlipMasks: masks, Random: c.N(500, 100000), Special: true}, c.N(2, 16)},
+		{"sources-tiny", cw.DamageJob{Payload: tiny, TruncAll: true, FlipMasks: masks, Random: c.N(500, 100000), Special: true, Sentinels: sentinels}, c.N(2, 16)},
 		{"sources-corpus-package", cw.DamageJob{Payload: small, TruncAllMax: 8192, TruncExtra: c.N(300, 3000), FlipMasks: masks, FlipAllMax: 4096, Random: c.N(1000, 100000)}, c.N(4, 16)},
 	}
 	if !c.Quick() {
-		plans[0].job.FlipMasks = allMasks
-		plans[1].job.FlipMasks = allMasks
-		plans[1].shards = 16
+		// thorough: all 255 masks at every offset of the entries up to 4 KB
+		for i := range plans {
+			plans[i].job.FlipMasks = allMasks
+			plans[i].shards = 16
+		}
 	}
 	if medium != "" {
 		plans = append(plans, plan{"sources-medium", cw.DamageJob{Payload: medium, TruncAllMax: 8192, TruncExtra: c.N(300, 3000), FlipMasks: masks, FlipAllMax: 4096, Random: c.N(3000, 100000)}, c.N(4, 16)})
@@ -128,7 +139,7 @@ func (k *check) damageJobs() (jobs, post []func()) {
 		c.Inconclusive("damage-medium-payload-unavailable")
 	}
 	if large != "" {
-		plans = append(plans, plan{"sources-large", cw.DamageJob{Payload: large, TruncAllMax: 8192, TruncExtra: c.N(150, 2000), FlipMasks: masks, FlipAllMax: 4096, Random: c.N(800, 100000)}, c.N(8, 32)})
+		plans = append(plans, plan{"sources-large", cw.DamageJob{Payload: large, TruncAllMax: 8192, TruncExtra: c.N(150, 2000), FlipMasks: masks, FlipAllMax: 4096, Random: c.N(800, 20000)}, c.N(8, 32)}) // ~35 ms per load of this entry
 	} else {
 		c.Inconclusive("damage-large-payload-unavailable")
 	}
@@ -191,13 +202,13 @@ func (k *check) damageMerge(name string, shard int, out cw.DamageOut) {
 		files := map[string]string{"case.json": mustJSON(map[string]any{"payload": out.Payload, "op": h.Op, "offset": h.Offset, "mask": h.Mask, "file_len": out.FileLen, "file_sha256": out.FileSHA, "strict_reader_says": h.StrictErr, "panic": h.Panic})}
 		switch {
 		case h.Panic != "" && h.StrictErr != "":
-			k.classViolate("damage-load-panics/gzip-integrity-unverified",
+			k.classViolate("gzip-integrity-unverified/load-panics",
 				"BuildCache.Load PANICS on a damaged entry instead of reporting a miss; an independent reader that drains the gzip stream rejects every one of these files (checksum/length/stream error), i.e. the integrity check documented in cache.go never runs before the decoded garbage is used",
 				id+": panic "+h.Panic+"; strict reader: "+h.StrictErr, files)
 		case h.Panic != "":
 			k.violate(fmt.Sprintf("damage/%s/%s/%d/%d/panic", name, h.Op, h.Offset, h.Mask), "Load panicked on "+id+": "+h.Panic, files)
 		case h.StrictErr != "":
-			k.classViolate("damage-hit-with-different-content/gzip-integrity-unverified",
+			k.classViolate("gzip-integrity-unverified/hit-with-different-content",
 				"BuildCache.Load returns true with content DIFFERENT from what was stored for a damaged entry; an independent reader that drains the gzip stream rejects every one of these files (checksum/length/stream error): deserialize never reads the stream to EOF, and gzip.Reader.Close does not verify the checksum, so the documented integrity check never happens",
 				id+": "+h.What+"; strict reader: "+h.StrictErr, files)
 		default:
